@@ -203,6 +203,11 @@ Theorem C13_clip_centres :
     coord2cell RR (g_nrows m) (g_ncols m) (g_xll m) (g_yll m) (g_csz m) (xur, yur)
       = k_row0 r * g_ncols m + k_col1 r /\
     g_csz (k_meta r) = g_csz m /\ g_dtype (k_meta r) = g_dtype m /\ g_nodata (k_meta r) = g_nodata m /\
+    (* parent bookkeeping *)
+    lookup "parentgrid_rows_start"%string (g_parent (k_meta r)) = Some (PInt (k_row0 r)) /\
+    lookup "parentgrid_rows_end"%string (g_parent (k_meta r)) = Some (PInt (k_row1 r)) /\
+    lookup "parentgrid_cols_start"%string (g_parent (k_meta r)) = Some (PInt (k_col0 r)) /\
+    lookup "parentgrid_cols_end"%string (g_parent (k_meta r)) = Some (PInt (k_col1 r)) /\
     forall i j, 0 <= i < g_nrows (k_meta r) -> 0 <= j < g_ncols (k_meta r) ->
       cell2coord RR (g_nrows (k_meta r)) (g_ncols (k_meta r)) (g_xll (k_meta r)) (g_yll (k_meta r))
                  (g_csz (k_meta r)) (i * g_ncols (k_meta r) + j) =
